@@ -123,19 +123,39 @@ Proof.
   rewrite forallb_forall in H. apply N.leb_le. now apply H.
 Qed.
 
-Definition qname_ok (q : qname) : bool := env_has (fst q) && is_ncname (snd q).
+Definition qname_ok (q : qname) : bool :=
+  match fst q with
+  | [] => is_ncname (snd q) && negb (str_eqb (snd q) sXMLNS)      (* a name in no namespace *)
+  | _ => env_has (fst q) && is_ncname (snd q)
+  end.
 Definition att_ok (a : qname * str) : bool := qname_ok (fst a) && codespace (snd a).
 
 Definition raw_att (a : qname * str) : str * str := (tag_of env (fst a), canon_str (snd a)).
 
+Lemma tag_cases q : qname_ok q = true ->
+  (fst q = [] /\ tag_of env q = snd q /\ is_ncname (snd q) = true /\ str_eqb (snd q) sXMLNS = false) \/
+  (fst q <> [] /\ exists p, lookup_str (fst q) env = Some p /\ is_ncname p = true /\
+                 tag_of env q = p ++ cCOLON :: snd q /\ is_ncname (snd q) = true).
+Proof.
+  unfold qname_ok, tag_of, nsprefix, env_has, prefix_of. destruct (fst q) as [|c ns] eqn:E; intros H.
+  - left. apply andb_true_iff in H as [H1 H2]. apply negb_true_iff in H2. auto.
+  - right. split; [discriminate|]. apply andb_true_iff in H as [H1 H2].
+    destruct (lookup_str (c :: ns) env) as [p|]; [|discriminate]. exists p.
+    destruct p as [|x p']; [discriminate|]. auto.
+Qed.
+
 Lemma tag_shape q : qname_ok q = true ->
   all_name (tag_of env q) = true /\ exists c r, tag_of env q = c :: r /\ name_start c = true.
 Proof.
-  unfold qname_ok, env_has, tag_of, prefix_of. intros H. apply andb_true_iff in H as [H1 H2].
-  destruct (lookup_str (fst q) env) as [p|]; [|discriminate]. split.
-  - rewrite !all_name_app, (ncname_all_name _ H1), (ncname_all_name _ H2). reflexivity.
-  - destruct p as [|c r]; [discriminate|]. exists c, (r ++ [cCOLON] ++ snd q). split; [reflexivity|].
-    cbn [is_ncname] in H1. apply andb_true_iff in H1 as [H1 _]. now apply nc_start_name_start.
+  intros H. destruct (tag_cases q H) as [(E & -> & Hn & _)|(_ & p & Hl & Hp & -> & Hn)].
+  - split; [now apply ncname_all_name|].
+    destruct (snd q) as [|c r]; [discriminate|]. exists c, r. split; [reflexivity|].
+    cbn [is_ncname] in Hn. apply andb_true_iff in Hn as [Hn _]. now apply nc_start_name_start.
+  - split.
+    + change (p ++ cCOLON :: snd q) with (p ++ [cCOLON] ++ snd q).
+      rewrite !all_name_app, (ncname_all_name _ Hp), (ncname_all_name _ Hn). reflexivity.
+    + destruct p as [|c r]; [discriminate|]. exists c, (r ++ cCOLON :: snd q). split; [reflexivity|].
+      cbn [is_ncname] in Hp. apply andb_true_iff in Hp as [Hp _]. now apply nc_start_name_start.
 Qed.
 
 (* "inside the start tag of n, attributes pre read so far" *)
